@@ -14,24 +14,24 @@ package bebop
 //@ define clean(tr *tokenReader) bool = forall i int :: 0 <= i && i < len(tr.errs) ==> !errIs(tr.errs[i].err, io.EOF)
 // Token shapes the parser relies on when it slices comment tokens: "//..." and "/*...*/".
 //@ define wfKC(kind tokenKind, concrete []byte) bool = (kind == tokenKindLineComment ==> len(concrete) >= 2) && (kind == tokenKindBlockComment ==> len(concrete) >= 4)
-//@ define okTR(tr *tokenReader) bool = tr != nil && tr.r != nil && tr.tree != nil && (ghost("ioerr", tr.r) == 1 ==> len(tr.errs) > 0) && clean(tr) && wfKC(tr.nextToken.kind, tr.nextToken.concrete)
+//@ define okTR(tr *tokenReader) bool = tr != nil && tr.r != nil && tr.tree != nil && (ghost("ioerr", tr.r) == 1 ==> len(tr.errs) > 0) && clean(tr) && wfKC(tr.nextToken.kind, tr.nextToken.concrete) && ghost("left", tr.r) >= 0 && !tr.tree.isTerminal && !tr.optionalSemicolons
 
 // step(tr): what every tokenizer step (find, the token builders, whitespace skipping, identifiers) does to the
 // error record. Errors only accumulate and earlier entries stay; every entry added except possibly the last
 // is a real error (not io.EOF-like); an I/O failure that happens during the step is recorded by a last entry
 // that is not io.EOF-like, so that Next cannot mistake it for the end of input; and if the last entry added is
 // io.EOF-like then the reader really is at the end of its input.
-//@ define stepGrow(tr *tokenReader) bool = tr.r == old(tr.r) && tr.tree == old(tr.tree) && len(tr.errs) >= old(len(tr.errs)) && (old(ghost("ioerr", tr.r)) == 1 ==> ghost("ioerr", tr.r) == 1)
+//@ define stepGrow(tr *tokenReader) bool = tr.r == old(tr.r) && tr.tree == old(tr.tree) && len(tr.errs) >= old(len(tr.errs)) && (old(ghost("ioerr", tr.r)) == 1 ==> ghost("ioerr", tr.r) == 1) && ghost("left", tr.r) >= 0 && ghost("left", tr.r) <= old(ghost("left", tr.r))
 //@ define stepKeep(tr *tokenReader) bool = forall i int :: 0 <= i && i < old(len(tr.errs)) ==> tr.errs[i].err == old(tr.errs[i].err)
 //@ define stepReal(tr *tokenReader) bool = forall i int :: old(len(tr.errs)) <= i && i < len(tr.errs) - 1 ==> !errIs(tr.errs[i].err, io.EOF)
 //@ define stepIO(tr *tokenReader) bool = (ghost("ioerr", tr.r) == 1 && old(ghost("ioerr", tr.r)) != 1) ==> (len(tr.errs) > old(len(tr.errs)) && !errIs(tr.errs[len(tr.errs)-1].err, io.EOF))
 //@ define stepEOF(tr *tokenReader) bool = (len(tr.errs) > old(len(tr.errs)) && errIs(tr.errs[len(tr.errs)-1].err, io.EOF)) ==> ghost("ateof", tr.r) == 1
 // inside the loops of a step nothing has been recorded yet
-//@ define quiet(tr *tokenReader) bool = tr.r == old(tr.r) && tr.tree == old(tr.tree) && tr.r != nil && len(tr.errs) == old(len(tr.errs)) && (forall i int :: 0 <= i && i < old(len(tr.errs)) ==> tr.errs[i].err == old(tr.errs[i].err)) && ghost("ioerr", tr.r) == old(ghost("ioerr", tr.r)) && wfKC(tr.nextToken.kind, tr.nextToken.concrete)
+//@ define quiet(tr *tokenReader) bool = tr.r == old(tr.r) && tr.tree == old(tr.tree) && tr.r != nil && len(tr.errs) == old(len(tr.errs)) && (forall i int :: 0 <= i && i < old(len(tr.errs)) ==> tr.errs[i].err == old(tr.errs[i].err)) && ghost("ioerr", tr.r) == old(ghost("ioerr", tr.r)) && wfKC(tr.nextToken.kind, tr.nextToken.concrete) && ghost("left", tr.r) >= 0 && ghost("left", tr.r) <= old(ghost("left", tr.r))
 
 //@ func newTokenReader
-//@   ensures okTR(result) && isfresh(result) && len(result.errs) == 0 && ghost("canunread", result.r) == 0 && ghost("ioerr", result.r) == 0 && !result.keepNextToken
-//@   modifies fresh(tokenReader), fresh(tokenTree), ghost("canunread"), ghost("ateof"), ghost("ioerr"), alloc()
+//@   ensures okTR(result) && isfresh(result) && len(result.errs) == 0 && ghost("canunread", result.r) == 0 && ghost("ioerr", result.r) == 0 && !result.keepNextToken && !result.optionalSemicolons && ghost("left", result.r) >= 0
+//@   modifies fresh(tokenReader), fresh(tokenTree), ghost("canunread"), ghost("ateof"), ghost("ioerr"), ghost("left"), ghost("lastread"), alloc()
 
 //@ func (*tokenReader).readByte
 //@   requires tr.r != nil
@@ -41,13 +41,16 @@ package bebop
 //@   ensures (result1 != nil && !errIs(result1, io.EOF)) ==> ghost("ioerr", tr.r) == 1
 //@   ensures (result1 != nil && result1 != io.EOF) ==> !errIs(result1, io.EOF)
 //@   ensures old(ghost("ioerr", tr.r)) == 1 ==> ghost("ioerr", tr.r) == 1
-//@   modifies tr.loc.lineChar, ghost("canunread", tr.r), ghost("ateof", tr.r), ghost("ioerr", tr.r)
+//@   ensures [FIN] result1 == nil ==> old(ghost("left", tr.r)) >= 1 && ghost("left", tr.r) == old(ghost("left", tr.r)) - 1
+//@   ensures [FIN] result1 != nil ==> ghost("left", tr.r) == old(ghost("left", tr.r))
+//@   modifies tr.loc.lineChar, ghost("canunread", tr.r), ghost("ateof", tr.r), ghost("ioerr", tr.r), ghost("left", tr.r), ghost("lastread", tr.r)
 
 // unreadByte panics when there is nothing to unread: callers must have read a byte.
 //@ func (*tokenReader).unreadByte
 //@   requires tr.r != nil && ghost("canunread", tr.r) == 1
 //@   ensures ghost("canunread", tr.r) == 0
-//@   modifies tr.loc.lineChar, ghost("canunread", tr.r)
+//@   ensures [FIN] ghost("left", tr.r) == old(ghost("left", tr.r)) + 1
+//@   modifies tr.loc.lineChar, ghost("canunread", tr.r), ghost("left", tr.r), ghost("lastread", tr.r)
 
 //@ func (*tokenReader).addError
 //@   ensures len(tr.errs) == old(len(tr.errs)) + 1 && tr.errs[old(len(tr.errs))].err == err
@@ -56,7 +59,7 @@ package bebop
 
 // The static token tree is built once by newTokenTree; its shape is trusted (assumed contract).
 //@ assume-func newTokenTree
-//@   ensures result != nil && isfresh(result)
+//@   ensures result != nil && isfresh(result) && !result.isTerminal
 //@   modifies fresh(tokenTree), alloc()
 
 // Effects every tokenizer step has on the reader: errors only accumulate, an I/O error that
@@ -65,7 +68,7 @@ package bebop
 
 // Token builders (the functions stored in tokenTree.build).
 //@ functype func(tr *tokenReader, concrete []byte) token
-//@   requires tr != nil && tr.r != nil && tr.tree != nil
+//@   requires tr != nil && tr.r != nil && tr.tree != nil && ghost("left", tr.r) >= 0
 //@   requires wfKC(tr.nextToken.kind, tr.nextToken.concrete)
 //@   ensures [GROW] stepGrow(tr)
 //@   ensures [TOK] wfKC(result.kind, result.concrete) && wfKC(tr.nextToken.kind, tr.nextToken.concrete)
@@ -73,11 +76,13 @@ package bebop
 //@   ensures [REAL] stepReal(tr)
 //@   ensures [IOREC] stepIO(tr)
 //@   ensures [EOFMARK] stepEOF(tr)
-//@   modifies tr.errs, tr.loc.lineChar, tr.loc.line, tr.nextToken, tr.lastToken, ghost("canunread", tr.r), ghost("ateof", tr.r), ghost("ioerr", tr.r), fresh(locError), fresh(byte), tr(), hw(), alloc()
+//@   modifies tr.errs, tr.loc.lineChar, tr.loc.line, tr.nextToken, tr.lastToken, ghost("canunread", tr.r), ghost("ateof", tr.r), ghost("ioerr", tr.r), ghost("left", tr.r), ghost("lastread", tr.r), fresh(locError), fresh(byte), tr(), hw(), alloc()
 
 //@ func (*tokenTree).find
 //@   requires v != nil
-//@   requires tr != nil && tr.r != nil && tr.tree != nil
+// a node that is not terminal reads at least one byte before it yields a token or gives up without an error
+//@   ensures [PROGRESS] (!old(v.isTerminal) && (result1 || len(tr.errs) == old(len(tr.errs)))) ==> ghost("left", tr.r) <= old(ghost("left", tr.r)) - 1
+//@   requires tr != nil && tr.r != nil && tr.tree != nil && ghost("left", tr.r) >= 0
 //@   requires len(concrete) > 0 ==> ghost("canunread", tr.r) == 1
 //@   requires wfKC(tr.nextToken.kind, tr.nextToken.concrete)
 //@   ensures [GROW] stepGrow(tr)
@@ -87,13 +92,15 @@ package bebop
 //@   ensures [IOREC] stepIO(tr)
 //@   ensures [EOFMARK] stepEOF(tr)
 //@   invariant loop 1: quiet(tr)
+//@   decreases loop 1: ghost("left", tr.r)
 //@   invariant loop 1: len(concrete) > 0 ==> ghost("canunread", tr.r) == 1
 //@   ensures [UNREAD] (!result1 && len(tr.errs) == old(len(tr.errs))) ==> ghost("canunread", tr.r) == 1
 //@   assume before "concrete = append(concrete, b)": t != nil
-//@   modifies tr.errs, tr.loc.lineChar, tr.loc.line, tr.nextToken, tr.lastToken, ghost("canunread", tr.r), ghost("ateof", tr.r), ghost("ioerr", tr.r), fresh(locError), fresh(byte), any(string), tr(), hw(), alloc()
+//@   modifies tr.errs, tr.loc.lineChar, tr.loc.line, tr.nextToken, tr.lastToken, ghost("canunread", tr.r), ghost("ateof", tr.r), ghost("ioerr", tr.r), ghost("left", tr.r), ghost("lastread", tr.r), fresh(locError), fresh(byte), any(string), tr(), hw(), alloc()
 
 //@ func (*tokenTree).findFirst
-//@   requires v != nil && tr != nil && tr.r != nil && tr.tree != nil
+//@   ensures [PROGRESS] (!old(v.isTerminal) && (result1 || len(tr.errs) == old(len(tr.errs)))) ==> ghost("left", tr.r) <= old(ghost("left", tr.r)) - 1
+//@   requires v != nil && tr != nil && tr.r != nil && tr.tree != nil && ghost("left", tr.r) >= 0
 //@   requires wfKC(tr.nextToken.kind, tr.nextToken.concrete)
 //@   ensures [GROW] stepGrow(tr)
 //@   ensures [TOK] wfKC(result0.kind, result0.concrete) && wfKC(tr.nextToken.kind, tr.nextToken.concrete)
@@ -102,7 +109,7 @@ package bebop
 //@   ensures [IOREC] stepIO(tr)
 //@   ensures [EOFMARK] stepEOF(tr)
 //@   ensures [UNREAD] (!result1 && len(tr.errs) == old(len(tr.errs))) ==> ghost("canunread", tr.r) == 1
-//@   modifies tr.errs, tr.loc.lineChar, tr.loc.line, tr.nextToken, tr.lastToken, ghost("canunread", tr.r), ghost("ateof", tr.r), ghost("ioerr", tr.r), fresh(locError), fresh(byte), any(string), tr(), hw(), alloc()
+//@   modifies tr.errs, tr.loc.lineChar, tr.loc.line, tr.nextToken, tr.lastToken, ghost("canunread", tr.r), ghost("ateof", tr.r), ghost("ioerr", tr.r), ghost("left", tr.r), ghost("lastread", tr.r), fresh(locError), fresh(byte), any(string), tr(), hw(), alloc()
 
 // A non-terminal node of the token tree has successors (tree shape, trusted with newTokenTree).
 //@ assume-func (*tokenTree).nextValidBytes
@@ -115,7 +122,7 @@ package bebop
 //@   modifies nothing
 //@ func numberToken
 //@   invariant loop 1: tk.kind == tokenKindIntegerLiteral || tk.kind == tokenKindFloatLiteral
-//@   requires tr != nil && tr.r != nil && tr.tree != nil
+//@   requires tr != nil && tr.r != nil && tr.tree != nil && ghost("left", tr.r) >= 0
 //@   requires wfKC(tr.nextToken.kind, tr.nextToken.concrete)
 //@   ensures [GROW] stepGrow(tr)
 //@   ensures [TOK] wfKC(result.kind, result.concrete) && wfKC(tr.nextToken.kind, tr.nextToken.concrete)
@@ -123,10 +130,11 @@ package bebop
 //@   ensures [REAL] stepReal(tr)
 //@   ensures [IOREC] stepIO(tr)
 //@   ensures [EOFMARK] stepEOF(tr)
-//@   modifies tr.errs, tr.loc.lineChar, tr.loc.line, tr.nextToken, tr.lastToken, ghost("canunread", tr.r), ghost("ateof", tr.r), ghost("ioerr", tr.r), fresh(locError), fresh(byte), any(string), tr(), hw(), alloc()
+//@   modifies tr.errs, tr.loc.lineChar, tr.loc.line, tr.nextToken, tr.lastToken, ghost("canunread", tr.r), ghost("ateof", tr.r), ghost("ioerr", tr.r), ghost("left", tr.r), ghost("lastread", tr.r), fresh(locError), fresh(byte), any(string), tr(), hw(), alloc()
 //@   invariant loop 1: quiet(tr)
+//@   decreases loop 1: ghost("left", tr.r)
 //@ func lineCommentToken
-//@   requires tr != nil && tr.r != nil && tr.tree != nil
+//@   requires tr != nil && tr.r != nil && tr.tree != nil && ghost("left", tr.r) >= 0
 //@   requires wfKC(tr.nextToken.kind, tr.nextToken.concrete)
 // the token tree registers this builder under a two-byte prefix ("//", "/*"); the dispatch through the tree is trusted
 //@   requires len(concrete) >= 2
@@ -136,11 +144,11 @@ package bebop
 //@   ensures [REAL] stepReal(tr)
 //@   ensures [IOREC] stepIO(tr)
 //@   ensures [EOFMARK] stepEOF(tr)
-//@   modifies tr.errs, tr.loc.lineChar, tr.loc.line, tr.nextToken, tr.lastToken, ghost("canunread", tr.r), ghost("ateof", tr.r), ghost("ioerr", tr.r), fresh(locError), fresh(byte), any(string), tr(), hw(), alloc()
+//@   modifies tr.errs, tr.loc.lineChar, tr.loc.line, tr.nextToken, tr.lastToken, ghost("canunread", tr.r), ghost("ateof", tr.r), ghost("ioerr", tr.r), ghost("left", tr.r), ghost("lastread", tr.r), fresh(locError), fresh(byte), any(string), tr(), hw(), alloc()
 //@ func blockCommentToken
 //@   invariant loop 1: tk.kind == tokenKindBlockComment && len(tk.concrete) >= 2
 //@   invariant loop 1: lastByte == 42 ==> len(tk.concrete) >= 3
-//@   requires tr != nil && tr.r != nil && tr.tree != nil
+//@   requires tr != nil && tr.r != nil && tr.tree != nil && ghost("left", tr.r) >= 0
 //@   requires wfKC(tr.nextToken.kind, tr.nextToken.concrete)
 // the token tree registers this builder under a two-byte prefix ("//", "/*"); the dispatch through the tree is trusted
 //@   requires len(concrete) >= 2
@@ -150,11 +158,12 @@ package bebop
 //@   ensures [REAL] stepReal(tr)
 //@   ensures [IOREC] stepIO(tr)
 //@   ensures [EOFMARK] stepEOF(tr)
-//@   modifies tr.errs, tr.loc.lineChar, tr.loc.line, tr.nextToken, tr.lastToken, ghost("canunread", tr.r), ghost("ateof", tr.r), ghost("ioerr", tr.r), fresh(locError), fresh(byte), any(string), tr(), hw(), alloc()
+//@   modifies tr.errs, tr.loc.lineChar, tr.loc.line, tr.nextToken, tr.lastToken, ghost("canunread", tr.r), ghost("ateof", tr.r), ghost("ioerr", tr.r), ghost("left", tr.r), ghost("lastread", tr.r), fresh(locError), fresh(byte), any(string), tr(), hw(), alloc()
 //@   invariant loop 1: quiet(tr)
+//@   decreases loop 1: ghost("left", tr.r)
 //@ func stringLiteralToken
 //@   invariant loop 1: tk.kind == tokenKindStringLiteral
-//@   requires tr != nil && tr.r != nil && tr.tree != nil
+//@   requires tr != nil && tr.r != nil && tr.tree != nil && ghost("left", tr.r) >= 0
 //@   requires wfKC(tr.nextToken.kind, tr.nextToken.concrete)
 //@   ensures [GROW] stepGrow(tr)
 //@   ensures [TOK] wfKC(result.kind, result.concrete) && wfKC(tr.nextToken.kind, tr.nextToken.concrete)
@@ -162,12 +171,13 @@ package bebop
 //@   ensures [REAL] stepReal(tr)
 //@   ensures [IOREC] stepIO(tr)
 //@   ensures [EOFMARK] stepEOF(tr)
-//@   modifies tr.errs, tr.loc.lineChar, tr.loc.line, tr.nextToken, tr.lastToken, ghost("canunread", tr.r), ghost("ateof", tr.r), ghost("ioerr", tr.r), fresh(locError), fresh(byte), any(string), tr(), hw(), alloc()
+//@   modifies tr.errs, tr.loc.lineChar, tr.loc.line, tr.nextToken, tr.lastToken, ghost("canunread", tr.r), ghost("ateof", tr.r), ghost("ioerr", tr.r), ghost("left", tr.r), ghost("lastread", tr.r), fresh(locError), fresh(byte), any(string), tr(), hw(), alloc()
 //@   invariant loop 1: quiet(tr)
+//@   decreases loop 1: ghost("left", tr.r)
 
 // skipFollowingWhitespace must not lose an I/O error and must only unread a byte it has read.
 //@ func (*tokenReader).skipFollowingWhitespace
-//@   requires tr != nil && tr.r != nil && tr.tree != nil
+//@   requires tr != nil && tr.r != nil && tr.tree != nil && ghost("left", tr.r) >= 0
 //@   requires wfKC(tr.nextToken.kind, tr.nextToken.concrete)
 //@   ensures [GROW] stepGrow(tr)
 //@   ensures [TOK] wfKC(tr.nextToken.kind, tr.nextToken.concrete)
@@ -175,14 +185,15 @@ package bebop
 //@   ensures [REAL] stepReal(tr)
 //@   ensures [IOREC] stepIO(tr)
 //@   ensures [EOFMARK] stepEOF(tr)
-//@   modifies tr.errs, tr.loc.lineChar, tr.loc.line, tr.nextToken, tr.lastToken, ghost("canunread", tr.r), ghost("ateof", tr.r), ghost("ioerr", tr.r), fresh(locError), fresh(byte), any(string), tr(), hw(), alloc()
+//@   modifies tr.errs, tr.loc.lineChar, tr.loc.line, tr.nextToken, tr.lastToken, ghost("canunread", tr.r), ghost("ateof", tr.r), ghost("ioerr", tr.r), ghost("left", tr.r), ghost("lastread", tr.r), fresh(locError), fresh(byte), any(string), tr(), hw(), alloc()
 //@   invariant loop 1: quiet(tr)
+//@   decreases loop 1: ghost("left", tr.r)
 
 //@ func (*tokenReader).nextIdent
 // the keyword table maps words to keyword kinds, never to a comment kind (trusted: contents of a package-level map)
 //@   assume after "keywordKind, ok := keywords[string(tk.concrete)]": keywordKind != tokenKindLineComment && keywordKind != tokenKindBlockComment
 //@   invariant loop 1: tk.kind == tokenKindIdent
-//@   requires tr != nil && tr.r != nil && tr.tree != nil
+//@   requires tr != nil && tr.r != nil && tr.tree != nil && ghost("left", tr.r) >= 0
 //@   requires wfKC(tr.nextToken.kind, tr.nextToken.concrete)
 //@   ensures [GROW] stepGrow(tr)
 //@   ensures [TOK] wfKC(tr.nextToken.kind, tr.nextToken.concrete)
@@ -192,8 +203,9 @@ package bebop
 //@   ensures [EOFMARK] stepEOF(tr)
 //@   ensures !result ==> len(tr.errs) > old(len(tr.errs)) && !errIs(tr.errs[len(tr.errs)-1].err, io.EOF)
 //@   ensures result ==> len(tr.errs) == old(len(tr.errs))
-//@   modifies tr.errs, tr.loc.lineChar, tr.loc.line, tr.nextToken, tr.lastToken, ghost("canunread", tr.r), ghost("ateof", tr.r), ghost("ioerr", tr.r), fresh(locError), fresh(byte), any(string), tr(), hw(), alloc()
+//@   modifies tr.errs, tr.loc.lineChar, tr.loc.line, tr.nextToken, tr.lastToken, ghost("canunread", tr.r), ghost("ateof", tr.r), ghost("ioerr", tr.r), ghost("left", tr.r), ghost("lastread", tr.r), fresh(locError), fresh(byte), any(string), tr(), hw(), alloc()
 //@   invariant loop 1: quiet(tr)
+//@   decreases loop 1: ghost("left", tr.r)
 
 // Next: no panic. The error record stays clean and keeps every earlier entry; the only entry ever removed is the
 // io.EOF marker of a clean end of input added during this very call. When Next reports that there is no token, either
@@ -204,9 +216,13 @@ package bebop
 //@   ensures [IOREC] ghost("ioerr", tr.r) == 1 ==> len(tr.errs) > 0
 //@   ensures [CLEAN] clean(tr)
 //@   ensures [TOK] wfKC(tr.nextToken.kind, tr.nextToken.concrete)
+//@   ensures [FIN] ghost("left", tr.r) >= 0
 //@   ensures [NODROP] len(tr.errs) >= old(len(tr.errs)) && (forall i int :: 0 <= i && i < old(len(tr.errs)) ==> tr.errs[i].err == old(tr.errs[i].err))
 //@   ensures [ATEOF] (!result && len(tr.errs) == 0) ==> ghost("ateof", tr.r) == 1
-//@   modifies tr.errs, tr.keepNextToken, tr.loc.lineChar, tr.loc.line, tr.nextToken, tr.lastToken, ghost("canunread", tr.r), ghost("ateof", tr.r), ghost("ioerr", tr.r), fresh(locError), fresh(byte), any(string), tr(), hw(), alloc()
+// progress: a token costs at least one byte of the (finite) input, or the one kept-back token
+//@   ensures [PROGRESS] result ==> 2*ghost("left", tr.r) + ite(tr.keepNextToken, 1, 0) < 2*old(ghost("left", tr.r)) + ite(old(tr.keepNextToken), 1, 0)
+//@   ensures [PROGRESS] 2*ghost("left", tr.r) + ite(tr.keepNextToken, 1, 0) <= 2*old(ghost("left", tr.r)) + ite(old(tr.keepNextToken), 1, 0)
+//@   modifies tr.errs, tr.keepNextToken, tr.loc.lineChar, tr.loc.line, tr.nextToken, tr.lastToken, ghost("canunread", tr.r), ghost("ateof", tr.r), ghost("ioerr", tr.r), ghost("left", tr.r), ghost("lastread", tr.r), fresh(locError), fresh(byte), any(string), tr(), hw(), alloc()
 
 // ---- the parser (parse.go) -----------------------------------------------------------------------
 // Every parser function keeps the tokenizer usable and never loses an I/O error (okTR), so that the
@@ -259,125 +275,140 @@ package bebop
 //@   ensures [IOREC] ghost("ioerr", tr.r) == 1 ==> len(tr.errs) > 0
 //@   ensures [CLEAN] clean(tr)
 //@   ensures [TOK] wfKC(tr.nextToken.kind, tr.nextToken.concrete)
+//@   ensures [FIN] ghost("left", tr.r) >= 0
 //@   ensures result != nil || len(tr.errs) == 0
-//@   modifies tr.errs, tr.keepNextToken, tr.loc.lineChar, tr.loc.line, tr.nextToken, tr.lastToken, ghost("canunread", tr.r), ghost("ateof", tr.r), ghost("ioerr", tr.r), fresh(), any(string), tr(), hw(), alloc()
+//@   modifies tr.errs, tr.keepNextToken, tr.loc.lineChar, tr.loc.line, tr.nextToken, tr.lastToken, ghost("canunread", tr.r), ghost("ateof", tr.r), ghost("ioerr", tr.r), ghost("left", tr.r), ghost("lastread", tr.r), fresh(), any(string), tr(), hw(), alloc()
 //@ func expectNext
 //@   requires okTR(tr)
-//@   invariant loop 1: tr != nil && tr.r != nil && tr.tree != nil && tr.r == old(tr.r) && tr.tree == old(tr.tree)
+//@   invariant loop 1: tr != nil && tr.r != nil && tr.tree != nil && tr.r == old(tr.r) && tr.tree == old(tr.tree) && ghost("left", tr.r) >= 0 && !tr.tree.isTerminal && !tr.optionalSemicolons
 //@   invariant loop 1: ghost("ioerr", tr.r) == 1 ==> len(tr.errs) > 0
 //@   invariant loop 1: clean(tr)
 //@   invariant loop 1: wfKC(tr.nextToken.kind, tr.nextToken.concrete)
 //@   ensures [IOREC] ghost("ioerr", tr.r) == 1 ==> len(tr.errs) > 0
 //@   ensures [CLEAN] clean(tr)
 //@   ensures [TOK] wfKC(tr.nextToken.kind, tr.nextToken.concrete)
+//@   ensures [FIN] ghost("left", tr.r) >= 0
 //@   ensures [TOKENS] result1 == nil ==> len(result0) == len(kinds)
-//@   modifies tr.errs, tr.keepNextToken, tr.loc.lineChar, tr.loc.line, tr.nextToken, tr.lastToken, ghost("canunread", tr.r), ghost("ateof", tr.r), ghost("ioerr", tr.r), fresh(), any(string), tr(), hw(), alloc()
+//@   modifies tr.errs, tr.keepNextToken, tr.loc.lineChar, tr.loc.line, tr.nextToken, tr.lastToken, ghost("canunread", tr.r), ghost("ateof", tr.r), ghost("ioerr", tr.r), ghost("left", tr.r), ghost("lastread", tr.r), fresh(), any(string), tr(), hw(), alloc()
 //@ func optNewline
 //@   requires okTR(tr)
 //@   ensures [IOREC] ghost("ioerr", tr.r) == 1 ==> len(tr.errs) > 0
 //@   ensures [CLEAN] clean(tr)
 //@   ensures [TOK] wfKC(tr.nextToken.kind, tr.nextToken.concrete)
-//@   modifies tr.errs, tr.keepNextToken, tr.loc.lineChar, tr.loc.line, tr.nextToken, tr.lastToken, ghost("canunread", tr.r), ghost("ateof", tr.r), ghost("ioerr", tr.r), fresh(), any(string), tr(), hw(), alloc()
+//@   ensures [FIN] ghost("left", tr.r) >= 0
+//@   modifies tr.errs, tr.keepNextToken, tr.loc.lineChar, tr.loc.line, tr.nextToken, tr.lastToken, ghost("canunread", tr.r), ghost("ateof", tr.r), ghost("ioerr", tr.r), ghost("left", tr.r), ghost("lastread", tr.r), fresh(), any(string), tr(), hw(), alloc()
 //@ func readEnumOptionValue
 //@   requires okTR(tr)
 //@   ensures [IOREC] ghost("ioerr", tr.r) == 1 ==> len(tr.errs) > 0
 //@   ensures [CLEAN] clean(tr)
 //@   ensures [TOK] wfKC(tr.nextToken.kind, tr.nextToken.concrete)
-//@   modifies tr.errs, tr.keepNextToken, tr.loc.lineChar, tr.loc.line, tr.nextToken, tr.lastToken, ghost("canunread", tr.r), ghost("ateof", tr.r), ghost("ioerr", tr.r), fresh(), any(string), tr(), hw(), alloc()
+//@   ensures [FIN] ghost("left", tr.r) >= 0
+//@   modifies tr.errs, tr.keepNextToken, tr.loc.lineChar, tr.loc.line, tr.nextToken, tr.lastToken, ghost("canunread", tr.r), ghost("ateof", tr.r), ghost("ioerr", tr.r), ghost("left", tr.r), ghost("lastread", tr.r), fresh(), any(string), tr(), hw(), alloc()
 //@ func readUntil
 //@   requires okTR(tr)
-//@   invariant loop 1: tr != nil && tr.r != nil && tr.tree != nil && tr.r == old(tr.r) && tr.tree == old(tr.tree)
+//@   invariant loop 1: tr != nil && tr.r != nil && tr.tree != nil && tr.r == old(tr.r) && tr.tree == old(tr.tree) && ghost("left", tr.r) >= 0 && !tr.tree.isTerminal && !tr.optionalSemicolons
 //@   invariant loop 1: ghost("ioerr", tr.r) == 1 ==> len(tr.errs) > 0
 //@   invariant loop 1: clean(tr)
 //@   invariant loop 1: wfKC(tr.nextToken.kind, tr.nextToken.concrete)
 //@   ensures [IOREC] ghost("ioerr", tr.r) == 1 ==> len(tr.errs) > 0
 //@   ensures [CLEAN] clean(tr)
 //@   ensures [TOK] wfKC(tr.nextToken.kind, tr.nextToken.concrete)
-//@   modifies tr.errs, tr.keepNextToken, tr.loc.lineChar, tr.loc.line, tr.nextToken, tr.lastToken, ghost("canunread", tr.r), ghost("ateof", tr.r), ghost("ioerr", tr.r), fresh(), any(string), tr(), hw(), alloc()
+//@   ensures [FIN] ghost("left", tr.r) >= 0
+//@   modifies tr.errs, tr.keepNextToken, tr.loc.lineChar, tr.loc.line, tr.nextToken, tr.lastToken, ghost("canunread", tr.r), ghost("ateof", tr.r), ghost("ioerr", tr.r), ghost("left", tr.r), ghost("lastread", tr.r), fresh(), any(string), tr(), hw(), alloc()
 //@ func readEnum
 //@   requires okTR(tr)
-//@   invariant loop 1: tr != nil && tr.r != nil && tr.tree != nil && tr.r == old(tr.r) && tr.tree == old(tr.tree)
+//@   invariant loop 1: tr != nil && tr.r != nil && tr.tree != nil && tr.r == old(tr.r) && tr.tree == old(tr.tree) && ghost("left", tr.r) >= 0 && !tr.tree.isTerminal && !tr.optionalSemicolons
 //@   invariant loop 1: ghost("ioerr", tr.r) == 1 ==> len(tr.errs) > 0
 //@   invariant loop 1: clean(tr)
 //@   invariant loop 1: wfKC(tr.nextToken.kind, tr.nextToken.concrete)
 //@   ensures [IOREC] ghost("ioerr", tr.r) == 1 ==> len(tr.errs) > 0
 //@   ensures [CLEAN] clean(tr)
 //@   ensures [TOK] wfKC(tr.nextToken.kind, tr.nextToken.concrete)
-//@   modifies tr.errs, tr.keepNextToken, tr.loc.lineChar, tr.loc.line, tr.nextToken, tr.lastToken, ghost("canunread", tr.r), ghost("ateof", tr.r), ghost("ioerr", tr.r), fresh(), any(string), tr(), hw(), alloc()
+//@   ensures [FIN] ghost("left", tr.r) >= 0
+//@   modifies tr.errs, tr.keepNextToken, tr.loc.lineChar, tr.loc.line, tr.nextToken, tr.lastToken, ghost("canunread", tr.r), ghost("ateof", tr.r), ghost("ioerr", tr.r), ghost("left", tr.r), ghost("lastread", tr.r), fresh(), any(string), tr(), hw(), alloc()
 //@ func readDeprecated
 //@   requires okTR(tr)
 //@   ensures [IOREC] ghost("ioerr", tr.r) == 1 ==> len(tr.errs) > 0
 //@   ensures [CLEAN] clean(tr)
 //@   ensures [TOK] wfKC(tr.nextToken.kind, tr.nextToken.concrete)
-//@   modifies tr.errs, tr.keepNextToken, tr.loc.lineChar, tr.loc.line, tr.nextToken, tr.lastToken, ghost("canunread", tr.r), ghost("ateof", tr.r), ghost("ioerr", tr.r), fresh(), any(string), tr(), hw(), alloc()
+//@   ensures [FIN] ghost("left", tr.r) >= 0
+//@   modifies tr.errs, tr.keepNextToken, tr.loc.lineChar, tr.loc.line, tr.nextToken, tr.lastToken, ghost("canunread", tr.r), ghost("ateof", tr.r), ghost("ioerr", tr.r), ghost("left", tr.r), ghost("lastread", tr.r), fresh(), any(string), tr(), hw(), alloc()
 //@ func skipEndOfLineComments
 //@   requires okTR(tr)
-//@   invariant loop 1: tr != nil && tr.r != nil && tr.tree != nil && tr.r == old(tr.r) && tr.tree == old(tr.tree)
+//@   invariant loop 1: tr != nil && tr.r != nil && tr.tree != nil && tr.r == old(tr.r) && tr.tree == old(tr.tree) && ghost("left", tr.r) >= 0 && !tr.tree.isTerminal && !tr.optionalSemicolons
 //@   invariant loop 1: ghost("ioerr", tr.r) == 1 ==> len(tr.errs) > 0
 //@   invariant loop 1: clean(tr)
 //@   invariant loop 1: wfKC(tr.nextToken.kind, tr.nextToken.concrete)
 //@   ensures [IOREC] ghost("ioerr", tr.r) == 1 ==> len(tr.errs) > 0
 //@   ensures [CLEAN] clean(tr)
 //@   ensures [TOK] wfKC(tr.nextToken.kind, tr.nextToken.concrete)
-//@   modifies tr.errs, tr.keepNextToken, tr.loc.lineChar, tr.loc.line, tr.nextToken, tr.lastToken, ghost("canunread", tr.r), ghost("ateof", tr.r), ghost("ioerr", tr.r), fresh(), any(string), tr(), hw(), alloc()
+//@   ensures [FIN] ghost("left", tr.r) >= 0
+//@   modifies tr.errs, tr.keepNextToken, tr.loc.lineChar, tr.loc.line, tr.nextToken, tr.lastToken, ghost("canunread", tr.r), ghost("ateof", tr.r), ghost("ioerr", tr.r), ghost("left", tr.r), ghost("lastread", tr.r), fresh(), any(string), tr(), hw(), alloc()
 //@ func readStruct
 //@   requires okTR(tr)
-//@   invariant loop 1: tr != nil && tr.r != nil && tr.tree != nil && tr.r == old(tr.r) && tr.tree == old(tr.tree)
+//@   invariant loop 1: tr != nil && tr.r != nil && tr.tree != nil && tr.r == old(tr.r) && tr.tree == old(tr.tree) && ghost("left", tr.r) >= 0 && !tr.tree.isTerminal && !tr.optionalSemicolons
 //@   invariant loop 1: ghost("ioerr", tr.r) == 1 ==> len(tr.errs) > 0
 //@   invariant loop 1: clean(tr)
 //@   invariant loop 1: wfKC(tr.nextToken.kind, tr.nextToken.concrete)
 //@   ensures [IOREC] ghost("ioerr", tr.r) == 1 ==> len(tr.errs) > 0
 //@   ensures [CLEAN] clean(tr)
 //@   ensures [TOK] wfKC(tr.nextToken.kind, tr.nextToken.concrete)
-//@   modifies tr.errs, tr.keepNextToken, tr.loc.lineChar, tr.loc.line, tr.nextToken, tr.lastToken, ghost("canunread", tr.r), ghost("ateof", tr.r), ghost("ioerr", tr.r), fresh(), any(string), tr(), hw(), alloc()
+//@   ensures [FIN] ghost("left", tr.r) >= 0
+//@   modifies tr.errs, tr.keepNextToken, tr.loc.lineChar, tr.loc.line, tr.nextToken, tr.lastToken, ghost("canunread", tr.r), ghost("ateof", tr.r), ghost("ioerr", tr.r), ghost("left", tr.r), ghost("lastread", tr.r), fresh(), any(string), tr(), hw(), alloc()
 //@ func readFieldType
 //@   requires okTR(tr)
-//@   invariant loop 1: tr != nil && tr.r != nil && tr.tree != nil && tr.r == old(tr.r) && tr.tree == old(tr.tree)
+//@   invariant loop 1: tr != nil && tr.r != nil && tr.tree != nil && tr.r == old(tr.r) && tr.tree == old(tr.tree) && ghost("left", tr.r) >= 0 && !tr.tree.isTerminal && !tr.optionalSemicolons
 //@   invariant loop 1: ghost("ioerr", tr.r) == 1 ==> len(tr.errs) > 0
 //@   invariant loop 1: clean(tr)
 //@   invariant loop 1: wfKC(tr.nextToken.kind, tr.nextToken.concrete)
 //@   ensures [IOREC] ghost("ioerr", tr.r) == 1 ==> len(tr.errs) > 0
 //@   ensures [CLEAN] clean(tr)
 //@   ensures [TOK] wfKC(tr.nextToken.kind, tr.nextToken.concrete)
-//@   modifies tr.errs, tr.keepNextToken, tr.loc.lineChar, tr.loc.line, tr.nextToken, tr.lastToken, ghost("canunread", tr.r), ghost("ateof", tr.r), ghost("ioerr", tr.r), fresh(), any(string), tr(), hw(), alloc()
+//@   ensures [FIN] ghost("left", tr.r) >= 0
+//@   modifies tr.errs, tr.keepNextToken, tr.loc.lineChar, tr.loc.line, tr.nextToken, tr.lastToken, ghost("canunread", tr.r), ghost("ateof", tr.r), ghost("ioerr", tr.r), ghost("left", tr.r), ghost("lastread", tr.r), fresh(), any(string), tr(), hw(), alloc()
 //@ func readMessage
 //@   requires okTR(tr)
-//@   invariant loop 1: tr != nil && tr.r != nil && tr.tree != nil && tr.r == old(tr.r) && tr.tree == old(tr.tree)
+//@   invariant loop 1: tr != nil && tr.r != nil && tr.tree != nil && tr.r == old(tr.r) && tr.tree == old(tr.tree) && ghost("left", tr.r) >= 0 && !tr.tree.isTerminal && !tr.optionalSemicolons
 //@   invariant loop 1: ghost("ioerr", tr.r) == 1 ==> len(tr.errs) > 0
 //@   invariant loop 1: clean(tr)
 //@   invariant loop 1: wfKC(tr.nextToken.kind, tr.nextToken.concrete)
 //@   ensures [IOREC] ghost("ioerr", tr.r) == 1 ==> len(tr.errs) > 0
 //@   ensures [CLEAN] clean(tr)
 //@   ensures [TOK] wfKC(tr.nextToken.kind, tr.nextToken.concrete)
-//@   modifies tr.errs, tr.keepNextToken, tr.loc.lineChar, tr.loc.line, tr.nextToken, tr.lastToken, ghost("canunread", tr.r), ghost("ateof", tr.r), ghost("ioerr", tr.r), fresh(), any(string), tr(), hw(), alloc()
+//@   ensures [FIN] ghost("left", tr.r) >= 0
+//@   modifies tr.errs, tr.keepNextToken, tr.loc.lineChar, tr.loc.line, tr.nextToken, tr.lastToken, ghost("canunread", tr.r), ghost("ateof", tr.r), ghost("ioerr", tr.r), ghost("left", tr.r), ghost("lastread", tr.r), fresh(), any(string), tr(), hw(), alloc()
 //@ func readUnion
 //@   requires okTR(tr)
-//@   invariant loop 1: tr != nil && tr.r != nil && tr.tree != nil && tr.r == old(tr.r) && tr.tree == old(tr.tree)
+//@   invariant loop 1: tr != nil && tr.r != nil && tr.tree != nil && tr.r == old(tr.r) && tr.tree == old(tr.tree) && ghost("left", tr.r) >= 0 && !tr.tree.isTerminal && !tr.optionalSemicolons
 //@   invariant loop 1: ghost("ioerr", tr.r) == 1 ==> len(tr.errs) > 0
 //@   invariant loop 1: clean(tr)
 //@   invariant loop 1: wfKC(tr.nextToken.kind, tr.nextToken.concrete)
 //@   ensures [IOREC] ghost("ioerr", tr.r) == 1 ==> len(tr.errs) > 0
 //@   ensures [CLEAN] clean(tr)
 //@   ensures [TOK] wfKC(tr.nextToken.kind, tr.nextToken.concrete)
-//@   modifies tr.errs, tr.keepNextToken, tr.loc.lineChar, tr.loc.line, tr.nextToken, tr.lastToken, ghost("canunread", tr.r), ghost("ateof", tr.r), ghost("ioerr", tr.r), fresh(), any(string), tr(), hw(), alloc()
+//@   ensures [FIN] ghost("left", tr.r) >= 0
+//@   modifies tr.errs, tr.keepNextToken, tr.loc.lineChar, tr.loc.line, tr.nextToken, tr.lastToken, ghost("canunread", tr.r), ghost("ateof", tr.r), ghost("ioerr", tr.r), ghost("left", tr.r), ghost("lastread", tr.r), fresh(), any(string), tr(), hw(), alloc()
 //@ func readConst
 //@   requires okTR(tr)
 //@   ensures [IOREC] ghost("ioerr", tr.r) == 1 ==> len(tr.errs) > 0
 //@   ensures [CLEAN] clean(tr)
 //@   ensures [TOK] wfKC(tr.nextToken.kind, tr.nextToken.concrete)
-//@   modifies tr.errs, tr.keepNextToken, tr.loc.lineChar, tr.loc.line, tr.nextToken, tr.lastToken, ghost("canunread", tr.r), ghost("ateof", tr.r), ghost("ioerr", tr.r), fresh(), any(string), tr(), hw(), alloc()
+//@   ensures [FIN] ghost("left", tr.r) >= 0
+//@   modifies tr.errs, tr.keepNextToken, tr.loc.lineChar, tr.loc.line, tr.nextToken, tr.lastToken, ghost("canunread", tr.r), ghost("ateof", tr.r), ghost("ioerr", tr.r), ghost("left", tr.r), ghost("lastread", tr.r), fresh(), any(string), tr(), hw(), alloc()
 //@ func readOpCode
 //@   requires okTR(tr)
 //@   ensures [IOREC] ghost("ioerr", tr.r) == 1 ==> len(tr.errs) > 0
 //@   ensures [CLEAN] clean(tr)
 //@   ensures [TOK] wfKC(tr.nextToken.kind, tr.nextToken.concrete)
-//@   modifies tr.errs, tr.keepNextToken, tr.loc.lineChar, tr.loc.line, tr.nextToken, tr.lastToken, ghost("canunread", tr.r), ghost("ateof", tr.r), ghost("ioerr", tr.r), fresh(), any(string), tr(), hw(), alloc()
+//@   ensures [FIN] ghost("left", tr.r) >= 0
+//@   modifies tr.errs, tr.keepNextToken, tr.loc.lineChar, tr.loc.line, tr.nextToken, tr.lastToken, ghost("canunread", tr.r), ghost("ateof", tr.r), ghost("ioerr", tr.r), ghost("left", tr.r), ghost("lastread", tr.r), fresh(), any(string), tr(), hw(), alloc()
 //@ func readBitflagExpr
 //@   requires okTR(tr)
 //@   ensures [IOREC] ghost("ioerr", tr.r) == 1 ==> len(tr.errs) > 0
 //@   ensures [CLEAN] clean(tr)
 //@   ensures [TOK] wfKC(tr.nextToken.kind, tr.nextToken.concrete)
-//@   modifies tr.errs, tr.keepNextToken, tr.loc.lineChar, tr.loc.line, tr.nextToken, tr.lastToken, ghost("canunread", tr.r), ghost("ateof", tr.r), ghost("ioerr", tr.r), fresh(), any(string), tr(), hw(), alloc()
+//@   ensures [FIN] ghost("left", tr.r) >= 0
+//@   modifies tr.errs, tr.keepNextToken, tr.loc.lineChar, tr.loc.line, tr.nextToken, tr.lastToken, ghost("canunread", tr.r), ghost("ateof", tr.r), ghost("ioerr", tr.r), ghost("left", tr.r), ghost("lastread", tr.r), fresh(), any(string), tr(), hw(), alloc()
 
 // ReadFile: no panic; every return statement other than the last returns a non-nil error; at the last one
 // (success) the tokenizer holds no error, the reader has not failed, and it is at the end of its input.
